@@ -1,6 +1,6 @@
 (* C09 — class prefixing hits every class selector and nothing else. Pinned statements. *)
 From GE Require Import Model.Str Model.CssNum Model.CssTok Model.CssOut Model.CssUrlEnc Model.Css Model.CssSpec.
-From GE Require Import Proofs.CssSpecProofs Proofs.CssTokProofs.
+From GE Require Import Proofs.CssSpecProofs Proofs.CssTokProofs Proofs.CssClassProofs.
 Open Scope N_scope.
 
 (* "nothing else", for every token tree and every option set without @import / :host rewriting:
@@ -37,9 +37,28 @@ Theorem C09_prefix_form : forall o st s p pre,
 Proof. exact prefix_form. Qed.
 Print Assumptions C09_prefix_form.
 
-(* "every class selector and nothing else", whole sheet: still refuted, now by D25
-   (`@import 'a' layer(b.t)` prefixes the layer name); the former witness `.a:not(:is(.b .c))` (D13)
-   satisfies the statement since fix f5fc923 (Example prefix_exact_former_d13) *)
-Theorem C09_prefix_exact_refuted : ~ C09_prefix_exact_full.
-Proof. exact prefix_exact_refuted. Qed.
-Print Assumptions C09_prefix_exact_refuted.
+(* "every class selector", at every nesting depth: for EVERY prelude of a qualified rule (blocks and
+   functions nested arbitrarily, comments anywhere; no `{}` at its top level) and every declaration
+   block, the identifiers and sign comments written to the normal output are exactly those the
+   specification demands (CssSpec.sel_spec / val_spec): each identifier directly after a `.` in
+   selector context is `<prefix>--<name>` (preceded by the sign comment), every other one unchanged *)
+Theorem C09_class_exact_rule : forall o prelude pb body e c rest st,
+  shaped prelude = true -> shaped body = true -> no_curly prelude = true -> w_using_low st = false ->
+  idc (o_tokens (w_normal (snd (qr_loop o (prelude ++ Block TCurly pb body e c :: rest) false false st)))) =
+  idc (o_tokens (w_normal st)) ++
+  idc (map e_tok (sel_spec o false prelude true false false false ++
+                  [mke GFree TCurly] ++ val_spec o false body None false ++ [mke GFree TCloseCurly])).
+Proof. exact class_exact_rule_normal. Qed.
+Print Assumptions C09_class_exact_rule.
+
+(* whole-sheet statement C09_prefix_exact_full (identifier / sign sequence of the normal output =
+   specification, every well-formed sheet): it was refuted by D13 and then by D25; both are repaired
+   and both former witnesses satisfy it now.  It is neither refuted (no counterexample known, none of
+   the remaining classes touches identifiers) nor proved as a whole; it is checked on every run. *)
+Theorem C09_former_witnesses_now_exact :
+  (map ser_tok (idents (o_tokens (w_normal (transform with_prefix d13_tree (mkpos 0 20))))) =
+   map ser_tok (idents (map e_tok (so_normal (expected with_prefix d13_tree))))) /\
+  (map ser_tok (idents (o_tokens (w_normal (transform d25_opts d25_tree (mkpos 0 23))))) =
+   map ser_tok (idents (map e_tok (so_normal (expected d25_opts d25_tree))))).
+Proof. split; [exact prefix_exact_former_d13 | apply former_d25_now_conforms]. Qed.
+Print Assumptions C09_former_witnesses_now_exact.
